@@ -17,6 +17,8 @@ text that is really there.
                      `await L.acquire(); try: B finally: L.release()` -> `async with L: B` (same for the sync form);
                      `except E as e: if isinstance(e, T): A else: B` -> `except T as e: A  except E as e: B`;
                      `try: A except ..: <always leaves> else: E` -> `try: A except ..` followed by E.
+  R5  single use     `t = E` followed at once by a statement that evaluates `t` exactly once, first and unconditionally (and `t` is bound and
+                     read nowhere else): E is written in its place.
   R4  inlining       a call of a helper that is not one of the functions the rules are anchored in (ANCHORS: the
                      functions of the pinned tree) is replaced by the helper's body: parameters bound to the
                      arguments, locals renamed apart, `return` turned into the use the caller makes of the value.
@@ -565,6 +567,104 @@ def _alias_pass(fn, stable):
     sub = _Subst(mapping)
     fn.body = [sub.visit(st) for st in fn.body]
     return len(mapping)
+
+
+# ------------------------------------------------------------------------------------------------- R5 single-use locals
+def _first_eval_use(stmt, name):
+    """the Name node loading `name` inside `stmt` if it is evaluated exactly once, unconditionally, and before anything impure; else None"""
+    slots = []
+    if isinstance(stmt, (ast.Expr, ast.Return, ast.Assign, ast.AnnAssign, ast.AugAssign)) and getattr(stmt, 'value', None) is not None:
+        slots.append(stmt.value)
+    elif isinstance(stmt, ast.If):
+        slots.append(stmt.test)
+    elif isinstance(stmt, (ast.For, ast.AsyncFor)):
+        slots.append(stmt.iter)
+    elif isinstance(stmt, (ast.With, ast.AsyncWith)) and len(stmt.items) >= 1:
+        slots.append(stmt.items[0].context_expr)
+    elif isinstance(stmt, ast.Raise) and stmt.exc is not None:
+        slots.append(stmt.exc)
+    else:
+        return None
+    found = []
+    state = {'blocked': False}
+    def walk(n):
+        if state['blocked']:
+            return
+        if isinstance(n, ast.Name):
+            if n.id == name and isinstance(n.ctx, ast.Load):
+                found.append(n)
+            return
+        if isinstance(n, (ast.Lambda, ast.GeneratorExp, ast.ListComp, ast.SetComp, ast.DictComp, ast.NamedExpr)):
+            state['blocked'] = True
+            return
+        if isinstance(n, ast.BoolOp):
+            walk(n.values[0]); state['blocked'] = True; return
+        if isinstance(n, ast.IfExp):
+            walk(n.test); state['blocked'] = True; return
+        if isinstance(n, ast.Compare) and len(n.ops) > 1:
+            walk(n.left); walk(n.comparators[0]); state['blocked'] = True; return
+        if isinstance(n, (ast.Call, ast.Await)):
+            for ch in ast.iter_child_nodes(n):
+                walk(ch)
+            if not found:
+                state['blocked'] = True      # an impure node evaluated before the use
+            return
+        for ch in ast.iter_child_nodes(n):
+            walk(ch)
+    for sl in slots:
+        walk(sl)
+    return found[0] if len(found) == 1 else None
+
+def _single_use_pass(fn):
+    """`t = E` immediately followed by a statement that evaluates `t` once, first and unconditionally, `t` bound and used nowhere else:
+    E is written where `t` was (same evaluation order, same values)"""
+    stores, loads = {}, {}
+    for n in ast.walk(fn):
+        if isinstance(n, ast.Name):
+            d = stores if isinstance(n.ctx, (ast.Store, ast.Del)) else loads
+            d[n.id] = d.get(n.id, 0) + 1
+    params = {a.arg for a in fn.args.args + fn.args.kwonlyargs + fn.args.posonlyargs}
+    if _contains(fn.body, (ast.Global, ast.Nonlocal)):
+        return 0
+    # names captured by nested functions / lambdas / comprehensions are left alone
+    captured = set()
+    for n in ast.walk(fn):
+        if n is not fn and isinstance(n, (ast.FunctionDef, ast.AsyncFunctionDef, ast.Lambda, ast.GeneratorExp, ast.ListComp, ast.SetComp, ast.DictComp)):
+            for x in ast.walk(n):
+                if isinstance(x, ast.Name):
+                    captured.add(x.id)
+    count = [0]
+    def do_block(stmts):
+        i = 0
+        while i < len(stmts):
+            st = stmts[i]
+            for field in ('body', 'orelse', 'finalbody'):
+                v = getattr(st, field, None)
+                if isinstance(v, list) and v and isinstance(v[0], ast.stmt):
+                    do_block(v)
+            if isinstance(st, ast.Try):
+                for h in st.handlers:
+                    do_block(h.body)
+            if i + 1 < len(stmts) and isinstance(st, (ast.Assign, ast.AnnAssign)) and getattr(st, 'value', None) is not None:
+                tg = st.targets[0] if isinstance(st, ast.Assign) and len(st.targets) == 1 else (st.target if isinstance(st, ast.AnnAssign) else None)
+                if isinstance(tg, ast.Name) and stores.get(tg.id) == 1 and loads.get(tg.id) == 1 and tg.id not in params and tg.id not in captured \
+                        and not isinstance(st.value, (ast.Yield, ast.YieldFrom)):
+                    use = _first_eval_use(stmts[i + 1], tg.id)
+                    if use is not None:
+                        new = st.value
+                        # replace in place
+                        class R(ast.NodeTransformer):
+                            def visit_Name(self, node):
+                                return new if node is use else node
+                        stmts[i + 1] = R().visit(stmts[i + 1])
+                        del stmts[i]
+                        count[0] += 1
+                        if i > 0:
+                            i -= 1       # the statement before may now feed this one
+                        continue
+            i += 1
+    do_block(fn.body)
+    return count[0]
 
 
 # ------------------------------------------------------------------------------------------------- R4 inlining
@@ -1203,5 +1303,9 @@ def normalize_module(name, tree, sibling_consts=None):
             if isinstance(m, (ast.FunctionDef, ast.AsyncFunctionDef)):
                 report['aliases'] += _alias_pass(m, stable)
     tree = _Idioms().visit(tree)
+    report['single_use'] = 0
+    for n in ast.walk(tree):
+        if isinstance(n, (ast.FunctionDef, ast.AsyncFunctionDef)):
+            report['single_use'] += _single_use_pass(n)
     ast.fix_missing_locations(tree)
     return tree, report
